@@ -24,7 +24,7 @@ func init() {
 			"with 0 accidentals the flat/sharp flag is reported as sharp (false): the circle of fifths has no flats there",
 			"tempo domain is the set of BPM values 60e6/f for every 24-bit field value f >= 1 (every representable tempo)",
 		},
-		Require: []string{"appends_to_returned_messages", "shared_out_variable_reads", "text_len_ge_128", "seqdata_len_ge_128", "tempo_fields", "named_keys", "key_tuples", "timesig_tuples", "meta_msgs_classified", "text_dictionary_points", "nil_pattern_calls"},
+		Require: []string{"appends_to_returned_messages", "empty_texts_through_a_used_variable", "shared_out_variable_reads", "text_len_ge_128", "seqdata_len_ge_128", "tempo_fields", "named_keys", "key_tuples", "timesig_tuples", "meta_msgs_classified", "text_dictionary_points", "nil_pattern_calls"},
 		Run:     runC15,
 	})
 }
@@ -161,6 +161,7 @@ func runC15(c *mon.Ctx) {
 			keep []byte // the message bytes as constructed
 			data []byte // constructor argument (sequencer data) or text
 			text bool
+			get  func(smf.Message, *string) bool
 		}
 		items := make([]item, n)
 		var sizes []int
@@ -170,8 +171,14 @@ func runC15(c *mon.Ctx) {
 				ln = r.Range(1, 300)
 			}
 			d := r.Bytes(ln)
-			if r.P(1, 4) {
-				items[k] = item{m: smf.MetaText(string(d)), data: d, text: true}
+			if r.P(1, 3) {
+				// texts through one string variable, the empty text among them (all nine text kinds)
+				if r.P(1, 3) {
+					d = []byte{}
+					c.Count("empty_texts_through_a_used_variable", 1)
+				}
+				tk := textKinds[r.Intn(len(textKinds))]
+				items[k] = item{m: tk.mk(string(d)), data: d, text: true, get: tk.get}
 			} else {
 				items[k] = item{m: smf.MetaSequencerData(append([]byte(nil), d...)), data: d}
 			}
@@ -187,7 +194,7 @@ func runC15(c *mon.Ctx) {
 				var ok bool
 				var got []byte
 				if it.text {
-					ok = it.m.GetMetaText(&txt)
+					ok = it.get(it.m, &txt)
 					got = []byte(txt)
 				} else {
 					ok = it.m.GetMetaSeqData(&out)
